@@ -175,6 +175,62 @@ def run_disk(sx, kind):
     return kind
 
 
+SKETCHES = ["OneCoreDisk", "FourCoreDisk", "HalfDisk", "WrappedDisk", "Oval", "Grid", "QuarterSplineDisk", "HalfSplineDisk",
+            "SplineDisk", "QuarterSplineRing", "HalfSplineRing", "SplineRing"]
+
+
+def run_lofted(sx, kind):
+    """shapes lofted from a sketch: shape.grid[i][j] is the operation that stands on sketch.grid[i][j] - bottom face on that
+    face, top face on its image in the end sketch - and core/shell of disk-like shapes follow the sketch's core/shell"""
+    k = sx.real("k", Fraction(1, 10), 10)
+    t = sx.vec(sx.real("tx", -20, 20), sx.real("ty", -20, 20), sx.real("tz", -20, 20))
+
+    def P(x, y, z):
+        return t + sx.vec(x, y, z) * k
+    if kind == "WrappedDisk":
+        sk, n = cb.WrappedDisk(P(0, 0, 0), P(2, 2, 0), k * 1.0, [0, 0, 1]), [0, 0, 1]
+    elif kind == "Oval":
+        sk, n = cb.Oval(P(0, 0, 0), P(2, 0, 0), [0, 0, 1], k * 1.0), [0, 0, 1]
+    elif kind == "Grid":
+        sk, n = cb.Grid(P(0, 0, 0), P(2, 3, 0), 2, 3), [0, 0, 1]
+    elif "Spline" in kind:
+        args = [P(0, 0, 0), P(0, 1, 0), P(0, 0, 2), k * 0.3, k * 0.5]
+        if "Ring" in kind:
+            args += [k * 0.1, k * 0.3]
+        sk, n = getattr(cb, kind)(*args), [1, 0, 0]
+    else:
+        sk, n = getattr(cb, kind)(P(0, 0, 0), P(1, 0, 0), [0, 0, 1]), [0, 0, 1]
+    d = sx.vec(*n) * (k * 1.5)
+    shape = cb.ExtrudedShape(sk, d)
+    sx.reach("round")
+    g, sg = shape.grid, sk.grid
+    same_shape = len(g) == len(sg) and all(len(a) == len(b) for a, b in zip(g, sg))
+    sx.prove(same_shape and sum(len(r) for r in g) == len(shape.operations) == len(sk.faces),
+             f"ExtrudedShape({kind}): the shape's grid has the sketch's grid layout and holds every operation once",
+             f"C19:lofted:layout:{kind}", info={"shape": [len(r) for r in g], "sketch": [len(r) for r in sg]})
+    if not same_shape:
+        return kind
+    conds_b, conds_t = [], []
+    for i, row in enumerate(g):
+        for j, op in enumerate(row):
+            face = sg[i][j]
+            for c in range(4):
+                want = face.points[c].position
+                conds_b.append(_close3(sx, (op.bottom_face.points[c].position - t) / k, (want - t) / k, 1e-8))
+                conds_t.append(_close3(sx, (op.top_face.points[c].position - t) / k, (want + d - t) / k, 1e-8))
+    sx.prove(sx.all(conds_b), f"ExtrudedShape({kind}): grid[i][j] stands on sketch.grid[i][j]", f"C19:lofted:bottom:{kind}")
+    sx.prove(sx.all(conds_t), f"ExtrudedShape({kind}): the top face of grid[i][j] is the image of sketch.grid[i][j] in the end "
+             "sketch", f"C19:lofted:top:{kind}")
+    if kind != "Grid" and getattr(sk, "core", None) and getattr(sk, "shell", None):
+        on = lambda faces: [op for i, row in enumerate(g) for j, op in enumerate(row) if any(sg[i][j] is f for f in faces)]
+        core_ops, shell_ops = on(sk.core), on(sk.shell)
+        sx.prove(len(g[0]) == len(sk.core) and all(any(o is c for c in core_ops) for o in g[0])
+                 and len(g[-1]) == len(sk.shell) and all(any(o is c for c in shell_ops) for o in g[-1]),
+                 f"ExtrudedShape({kind}): grid[0] are the operations on the sketch's core faces, grid[-1] those on its shell",
+                 f"C19:lofted:core-shell:{kind}")
+    return kind
+
+
 def jobs(tier, seed):
     js = []
 
@@ -193,4 +249,6 @@ def jobs(tier, seed):
         add("run_round", f"round|{shape}", shape=shape)
     for kind in ("OneCoreDisk", "FourCoreDisk", "HalfDisk"):
         add("run_disk", f"disk|{kind}", kind=kind)
+    for kind in SKETCHES:
+        add("run_lofted", f"lofted|{kind}", kind=kind)
     return js
